@@ -83,7 +83,7 @@ def run(scenario, params, tape, detail=False):
         if hit and o[0] == "T":
             return
         if hit and o[0] == "E":
-            payload = Z.header(ncp.V, req.seq, Z.ID_INVALID_COMMAND) + bytes([0x31])
+            payload = Z.header(ncp.V, req.seq, Z.ID_INVALID_COMMAND) + ncp.invalid_body(0x31)
         req.nrsp += 1
         ncp.emit(payload, 0.0, "rsp", req.seq)
 
